@@ -204,11 +204,11 @@ the check's driver builds them (`Proofs/MdlRep.lean`).  Side conditions, all dec
 `editsOk2` (`Proofs/MdlHistory2.lean`: new streams come with the strides of the mesh — the API
 cannot change them; for `add_shape_mesh` the mesh it extends is well-formed at that moment, the
 new records have one stride each, the `u16` vertex count does not wrap), the final model is
-canonical (`Canonical a'`: canonical encodings, every mesh starts at its first sub-mesh's offset —
-nothing is asked of the intermediate states), every LOD in use has a mesh (`usedNonempty a'`), and
-the model **as `update_headers` lays it out** (`relayout a'`: same geometry — `view_relayout` —,
-index sections padded to the next multiple of 16 strictly above, `Spec/MdlRelayout.lean`) is
-well-formed — in particular its file stays below 4 GiB.
+well-formed and canonical (`WF a'`, `Canonical a'`: canonical encodings, every mesh starts at its
+first sub-mesh's offset — nothing is asked of the intermediate states), every LOD in use has a mesh
+(`usedNonempty a'`), and the file of the model **as `update_headers` lays it out** (`relayout a'`:
+same geometry — `view_relayout` —, index sections padded to the next multiple of 16 strictly above,
+`Spec/MdlRelayout.lean`) stays below 4 GiB.
 
 Conclusion: `from_existing (encodeMdl a)` returns a model `m0`, and for **every** outcome `mE` of
 the edit calls on `m0` that returns, `write_to_buffer mE` returns a buffer whose re-parse `m1`
@@ -243,7 +243,8 @@ theorem c07_edit_then_parse_partial (a : AbstractModel) (h : WF a = true) (hcan 
     (es : List AEdit) (hne : es ≠ []) (hes : editsOk2 a es = true)
     (a' : AbstractModel) (ha' : applyEdits a es = some a')
     (ces : List Edit) (hces : cedits a es = some ces)
-    (h' : WF (relayout a') = true) (hcan' : Canonical a' = true) (hne' : usedNonempty a' = true)
+    (h' : WF a' = true) (hlen' : (encodeMdl (relayout a')).length < 4294967296)
+    (hcan' : Canonical a' = true) (hne' : usedNonempty a' = true)
     (v : View) (hv : view a' = some v) :
     ∃ m0, fromExisting (encodeMdl a) = .ok m0 ∧
       ∀ mE, ces.foldlM Mdl.applyEdit m0 = .ok mE →
@@ -252,7 +253,7 @@ theorem c07_edit_then_parse_partial (a : AbstractModel) (h : WF a = true) (hcan 
           headerFlags m1.fileHeader buf.length m1.lods = HeaderFlags.allOk := by
   refine ⟨parsedOf a v0, parse_encode a h (canonical_noWeightsByte4 a hcan) v0 hv0, fun mE hE => ?_⟩
   obtain ⟨buf, m1, h1, h2, h3, h4, h5, h6⟩ :=
-    edit_then_parse a h hcan v0 hv0 es hne hes a' ha' ces hces h' hcan' hne' v hv mE hE
+    edit_then_parse a h hcan v0 hv0 es hne hes a' ha' ces hces h' hlen' hcan' hne' v hv mE hE
   exact ⟨buf, m1, h1, h2, h5, h3, h4, h6⟩
 
 /-- `canonicalSample` with one (empty) shape, so that `add_shape_mesh` has something to extend -/
@@ -277,7 +278,8 @@ example :
     (match view shapeSample, applyEdits shapeSample sampleEdits, cedits shapeSample sampleEdits with
      | some v0, some a', some ces =>
        WF shapeSample && Canonical shapeSample &&
-       editsOk2 shapeSample sampleEdits && WF (relayout a') && Canonical a' && usedNonempty a' &&
+       editsOk2 shapeSample sampleEdits && WF a' && Canonical a' && usedNonempty a' &&
+         decide ((encodeMdl (relayout a')).length < 4294967296) &&
          (match view a' with
           | some v => v.lods.all (fun ps => ps.all (fun p => p.shapes.length == 1 && p.vertices.length == 4))
           | none => false) &&
